@@ -133,3 +133,6 @@ package convert
 //@ func convert.Convert
 //@   trusted
 //@   ensures (=> (= result.1 nil.Any) (and (conforms (vty result.0) want) (wf_ty (vty result.0)) (wf_marks result.0) (not (has_opt (vty result.0)))))
+//@   ensures (=> (= result.1 nil.Any) (and (wf_deep result.0) (= (vs_of result.0) (cset_of in want)) (=> (not (deep_marked in)) (not (is_marked result.0))) (=> (and (kn in) (is_set_ty (vty in)) (is_set_ty want)) (and (kn result.0) (is_set_ty (vty result.0))))))
+// (consequences of the conformance clause for set types, stated for the element types so that the terms exist)
+//@   ensures (=> (and (= result.1 nil.Any) (is_set_ty want) (is_set_ty (vty result.0))) (and (conforms (elem_ty (vty result.0)) (elem_ty want)) (not (has_opt (elem_ty (vty result.0))))))
